@@ -662,6 +662,37 @@ def rule_n_lm_quotient_bounded(ctx, fns):
     return n
 
 
+def rule_o_event_cutoff_counts_all_batches(ctx, f):
+    """read_listmode_batch(ibatch) reads one cache-full of events; num_events_to_use limits the events of the WHOLE frame.  The count
+    that is compared with it must therefore include the earlier batches: its data slice contains the batch number (or a member that
+    persists between the calls) - a local that starts at 0 in every call never reaches a cut-off larger than the cache (F79)."""
+    from engine.algebra import data_slice
+
+    RULE = "C14.o-event-cut-off-counts-all-batches"
+    defs = LocalDefs(f)
+    if not f.params:
+        ctx.unrec(f.qn, "C14.o: no batch parameter")
+        return 0
+    ib = f.params[0]["d"]
+    n = 0
+    for m in f.walk():
+        if not (m.k == "BinaryOperator" and m.op in (">=", ">", "<", "<=", "==")):
+            continue
+        sides = [m.c[0].strip(), m.c[1].strip()]
+        ks = [key(x, True) for x in sides]
+        lim = [i for i, k_ in enumerate(ks) if "num_events_to_use" in k_]
+        if len(lim) != 1:
+            continue
+        other = sides[1 - lim[0]]
+        if key(other) in ("0", "0.0"):
+            continue  # `num_events_to_use > 0`: is there a cut-off at all
+        sl = data_slice(f, [other], defs)
+        persists = any(x.k == "DeclRefExpr" and x.get("d") == ib for x in sl) or any(x.k == "MemberExpr" and x.get("mk") == "field" and x.c and x.c[0].strip().k == "CXXThisExpr" and x.get("n") not in ("num_events_to_use",) and any(key(w.c[0].strip()) == "this." + x.get("n") for w in f.walk() if w.k in ("BinaryOperator", "CompoundAssignOperator", "UnaryOperator") and w.c) for x in sl)
+        ctx.ob(RULE, f.qn.split("<")[0], "cut-off@%d" % n, persists, m.where(), "the count compared with num_events_to_use includes the earlier batches (depends on the batch number)" if persists else "`%s` is compared with num_events_to_use but starts afresh in every batch: a cut-off larger than the cache size is never reached and all events of the frame are used" % key(other, True)[:60])
+        n += 1
+    return n
+
+
 def _subscript_chain(n):
     idx = []
     n = n.strip()
@@ -723,6 +754,8 @@ def run(ctx):
         rule_i_additive_lookup_uses_event_coordinates(ctx, rb[0])
         ctx.require_count("C14.i-additive-term-of-the-event", 1)
         rule_j_batches_continue_with_the_clock(ctx, rb[0])
+        rule_o_event_cutoff_counts_all_batches(ctx, rb[0])
+        ctx.require_count("C14.o-event-cut-off-counts-all-batches", 1)
         ctx.require_count("C14.j-batches-continue-with-the-clock", 1)
     rule_k_cache_follows_the_model(ctx, us[3].functions + us[4].functions)
     rule_m_setup_follows_settings(ctx, us[5].functions)
